@@ -487,6 +487,15 @@ func (g *sgen) instanceFor(s map[string]interface{}, root map[string]interface{}
 		tuple, _ := s["items"].([]interface{})
 		single, _ := s["items"].(map[string]interface{})
 		addl, _ := s["additionalItems"].(map[string]interface{})
+		if u, _ := s["uniqueItems"].(bool); u && tuple == nil && single == nil && g.p(20) {
+			// distinct values that look alike when printed or keyed carelessly: uniqueness is JSON equality, nothing weaker
+			return [][]interface{}{
+				{1, "1"}, {true, "true"}, {nil, "<nil>"}, {nil, "null"}, {0, false}, {"", nil},
+				{[]interface{}{"a", "b"}, []interface{}{"a b"}},
+				{map[string]interface{}{"a": "b c:d"}, map[string]interface{}{"a": "b", "c": "d"}},
+				{1, 1.0}, {"a", "a"}, {[]interface{}{1, 2}, []interface{}{1, 2}},
+			}[g.rng.Intn(11)]
+		}
 		if tuple != nil && g.p(60) {
 			n = len(tuple) + g.rng.Intn(4)
 		}
